@@ -767,6 +767,11 @@ pub fn read_failure_key(sut: &Sut, m: &RefLog, j: &Journal, hist: &[Op], is_err:
     let f3 = reappended_below_highwater(hist);
     let actual = sut.cache().boundary;
     let in_open_chunk = |id: &LogId| j.open().recs.iter().any(|r| matches!(r, MRec::Append(x, _) if x == id));
+    // a panic is never the recorded finding: F3 is an error result
+    let panicked = m.entries.keys().any(|i| matches!(sut.read(*i, *i + 1), Err(e) if e.contains("PANIC")));
+    if panicked {
+        return "read-panics".to_string();
+    }
     let f3_mechanism = !failing.is_empty()
         && is_err
         && actual == j.boundary_effective
